@@ -175,6 +175,8 @@ impl<'de, R: Reader<'de>> Parser<R> {
     pub fn parse_number(&mut self, first: u8) -> (res: Result<ParserNumber>)
         requires old(self).pinv(), old(self).read.idx() >= 1,
             first == old(self).read.data()[old(self).read.idx() - 1], first == 0x2d || is_digit(first),
+            // proved for the real wrapper in unit `typed_num`: the reader steps back one byte, the whitespace cache must not start after it
+            old(self).nospace_start == -128 || old(self).nospace_start <= old(self).read.idx() - 1,
         ensures final(self).pinv(), final(self).same_doc(old(self)),
             number_end(old(self).read.data(), old(self).read.idx() - 1).is_some() ==> res.is_ok()
                 && final(self).read.idx() == number_end(old(self).read.data(), old(self).read.idx() - 1).unwrap(),
